@@ -167,4 +167,92 @@ def runFrom (p : SeqPath) (st : SeqState) (k : Nat) : List SeqItem → List (Nat
 def runSeq (p : SeqPath) (items : List SeqItem) : List (Nat × SiteObs) :=
   runFrom p (SeqState.init p items) 0 items
 
+/-! ## the one piece of state a resolution leaves behind: the instantiation registry
+
+`find_overload_casts` turns a template candidate into a concrete signature with `build_function_template_signature` /
+`build_intrinsic_template`, and those look first whether the function registry already holds an instantiation of that
+template for those arguments (`find_instantiation(id, args)`: `parent_id == id && template_args == args`); only a
+*successful* instantiation is registered.  The registry lives in the module for the whole compilation, so a later call
+site — after more overloads were declared — meets the instantiations earlier call sites made.  The walk below threads
+that registry through every resolution; `Thm.C16.registry_is_transparent` proves it changes no verdict. -/
+
+/-- the function registry's instantiations: (template id, template arguments) ↦ parameter list of the instance -/
+abbrev InstReg := List ((Nat × List TArg) × List Param)
+
+/-- `FunctionRegistry::find_instantiation` -/
+def InstReg.find (id : Nat) (targs : List TArg) : InstReg → Option (List Param)
+  | [] => none
+  | ((i, t), ps) :: rest => if i = id ∧ t = targs then some ps else InstReg.find id targs rest
+
+/-- `build_function_template_signature` / `build_intrinsic_template`: an instantiation found in the registry is
+    returned as it is, else the signature is substituted and, if that succeeds, registered -/
+def buildSig (r : InstReg) (c : TCand) (targs : List TArg) : Except String (Option (List Param)) × InstReg :=
+  match r.find c.id targs with
+  | some ps => (.ok (some ps), r)
+  | none =>
+    match substParams targs c.params with
+    | .ok (some ps) => (.ok (some ps), r ++ [((c.id, targs), ps)])
+    | other => (other, r)
+
+/-- the template half of `find_overload_casts` with the registry -/
+def TCand.instR (r : InstReg) (c : TCand) (explicit : List TArg) (args : List ETy) :
+    Except String (Option (List Param)) × InstReg :=
+  if c.tkinds.isEmpty then (c.inst explicit args, r)
+  else
+    match c.targs explicit args with
+    | none => (.ok none, r)
+    | some targs => buildSig r c targs
+
+/-- first loop of `find_function_type` with the registry threaded through the candidates in declaration order -/
+def viableCastsR (explicit : List TArg) (args : List ETy) (r : InstReg) :
+    List TCand → Except String (List (Nat × List Conversion)) × InstReg
+  | [] => (.ok [], r)
+  | c :: cs =>
+    if args.length ≤ c.params.length ∧ c.nonDefault ≤ args.length then
+      match c.instR r explicit args with
+      | (.error e, r') => (.error e, r')
+      | (.ok none, r') => viableCastsR explicit args r' cs
+      | (.ok (some ps), r') =>
+        match zipFind ps args with
+        | .error e => (.error e, r')
+        | .ok x =>
+          match viableCastsR explicit args r' cs with
+          | (.error e, r'') => (.error e, r'')
+          | (.ok rest, r'') => (.ok (match x with | some y => (c.id, y) :: rest | none => rest), r'')
+    else viableCastsR explicit args r cs
+
+/-- `write_function` / `write_method` with the registry -/
+def callTR (r : InstReg) (cands : List TCand) (explicit : List TArg) (args : List ETy) : CallOutcome × InstReg :=
+  let (casts, r') := viableCastsR explicit args r cands
+  (finishCall cands explicit args (resolveCasts casts), r')
+
+def siteObsR (r : InstReg) (v : Option (List TCand)) (explicit : List TArg) (args : List ETy) : SiteObs × InstReg :=
+  match v with
+  | none => (.noname, r)
+  | some cands => let (o, r') := callTR r cands explicit args; (.verdict o, r')
+
+/-- `seqStep` with the registry -/
+def seqStepR (p : SeqPath) (st : SeqState) (r : InstReg) : SeqItem → SeqState × InstReg × Option SiteObs
+  | .site m x a => let (o, r') := siteObsR r (st.visible p m) x a; (st, r', some o)
+  | .trigger j z =>
+    match lookupHelper j st.helpers with
+    | none => (st, r, some .noname)
+    | some (m, a) =>
+      if st.built.contains (j, z) then (st, r, some .cached)
+      else
+        let (o, r') := siteObsR r (st.visible p m) [] a
+        (if isAccepted o then { st with built := (j, z) :: st.built } else st, r', some o)
+  | i => ((seqStep p st i).1, r, (seqStep p st i).2)
+
+def runFromR (p : SeqPath) (st : SeqState) (r : InstReg) (k : Nat) : List SeqItem → List (Nat × SiteObs)
+  | [] => []
+  | i :: is =>
+    match seqStepR p st r i with
+    | (st', r', some o) => (k, o) :: runFromR p st' r' (k + 1) is
+    | (st', r', none) => runFromR p st' r' (k + 1) is
+
+/-- the whole sequence, the registry empty at the start -/
+def runSeqR (p : SeqPath) (items : List SeqItem) : List (Nat × SiteObs) :=
+  runFromR p (SeqState.init p items) [] 0 items
+
 end RsslVerif.Model.Overload
